@@ -38,12 +38,20 @@ def decode(obj):
             return obj["b"].encode("latin-1")
         if "r" in obj:
             name, fields = obj["r"]
-            return ("rec", name, [(k, decode(v)) for k, v in fields])
+            return ("rec", _utf8(name) if name is not None else None, [(_utf8(k), decode(v)) for k, v in fields])
         if "t" in obj:
             return ("tup", [decode(v) for v in obj["t"]])
         if "scalar" in obj:
             return ("scalar", decode(obj["scalar"]))
     raise ValueError("cannot decode %r" % (obj,))
+
+
+def _utf8(s):
+    """the walker writes bytes as latin-1 code points; names and keys are UTF-8"""
+    try:
+        return s.encode("latin-1").decode("utf-8")
+    except (UnicodeDecodeError, UnicodeEncodeError):
+        return s
 
 
 def loads(text):
